@@ -214,12 +214,12 @@ def _kind_of(schema):
     raise KeyError(schema)
 
 
-def get_kwargs_contract(pkg, doc, opid, method, path, params, content, version):
+def get_kwargs_contract(pkg, doc, opid, method, path, params, content, version, overrides=None):
     from openapi_python_client import utils
     tag = "t" if content is None else "b"
 
     def make(I):
-        fn, kwargs, exp = build_call(I, pkg, doc, opid, method, path, params, content)
+        fn, kwargs, exp = build_call(I, pkg, doc, opid, method, path, params, content, overrides)
         return SFunc("pyfunc", fn), [], kwargs, {"expected": exp}
 
     def eq(ctx):
@@ -242,7 +242,7 @@ def get_kwargs_contract(pkg, doc, opid, method, path, params, content, version):
     return FnContract(f"{pkg.name}.api.{tag}.{opid}:_get_kwargs", [case])
 
 
-def build_call(I, pkg, doc, opid, method, path, params, content):
+def build_call(I, pkg, doc, opid, method, path, params, content, overrides=None):
     """symbolic arguments of an operation and the request the document says they must produce"""
     tag = "t" if content is None else "b"
     if True:
@@ -300,7 +300,7 @@ def build_call(I, pkg, doc, opid, method, path, params, content):
             exp.items["cookies"] = SDict(expected["cookie"])
         headers = dict(expected["header"])
         if content is not None:
-            body, key, enc, ctype = _body_value(I, pkg, doc, content, ab)
+            body, key, enc, ctype = _body_value(I, pkg, doc, content, ab, overrides)
             kwargs["body"] = body
             exp.items[key] = enc
             if ctype is not None:
@@ -395,15 +395,21 @@ def _deep_eq(I, a, b):
     return I.py_eq(a, b)
 
 
-def _body_value(I, pkg, doc, content, ab):
-    """python-side body argument, kwarg key, expected encoding, expected Content-Type (None: must not be set)"""
+def _body_value(I, pkg, doc, content, ab, overrides=None):
+    """python-side body argument, kwarg key, expected encoding, expected Content-Type (None: must not be set).
+    overrides: config.content_type_overrides -- a media type BEHAVES as the one it maps to and is SENT as itself"""
     comps = doc["components"]["schemas"]
     types = list(content)
     k = 0
     while k < len(types) - 1 and not I.branch_free():
         k += 1
-    ctype = types[k]
-    schema = content[ctype]["schema"]
+    declared = types[k]
+    schema = content[declared]["schema"]
+    ctype = (overrides or {}).get(declared, declared)
+    if ctype != declared:
+        # behave as `ctype`, announce `declared` (also for a multipart target: the document's own media type is what is sent)
+        body, key, enc, _ = _body_value(I, pkg, doc, {ctype: content[declared]}, ab, None)
+        return body, key, enc, declared
     wb = fragments.WireBuilder(I, comps)
 
     def model_from(schema_ref):
@@ -468,7 +474,7 @@ def _bytes_decode(I, args, kwargs):
     return SStr(I.fresh("decoded", z3.StringSort()))
 
 
-def parse_response_contract(pkg, doc, opid, responses, version, entry="_parse_response", unspecified=()):
+def parse_response_contract(pkg, doc, opid, responses, version, entry="_parse_response", unspecified=(), overrides=None):
     """unspecified: status intervals the contract says nothing about (e.g. codes covered only by a range key such as 2XX, which
     this generator may or may not support): the 'undocumented status' case ranges over the codes outside them"""
     comps = doc["components"]["schemas"]
@@ -493,6 +499,7 @@ def parse_response_contract(pkg, doc, opid, responses, version, entry="_parse_re
             content = r.get("content") or {}
             ctype = next(iter(content), None)
             schema = content[ctype]["schema"] if ctype else None
+            ctype = (overrides or {}).get(ctype, ctype)        # content_type_overrides: decoded as the media type it maps to
         else:
             for c in codes:
                 I.assume(status.t != c)
